@@ -57,7 +57,32 @@ def _check_true_edges(fn, goal_txt="goal"):
         if core[0] == "call" and core[1].endswith("::check_goal_in_facts") and (goal_txt is None or fmt_sym(strip(core[2][1]), maxdepth=8) == goal_txt):
             fe, te = A.bool_edges(fn, b)
             out.append((b, te, ("sw", "otherwise")) if val else (b, fe, ("sw", 0)))
+        elif core[0] == "phi" and _implies_check(core, goal_txt) and any(x[0] == "call" and x[1].endswith("::check_goal_in_facts") for x in walk(core)):
+            # a materialised verdict (`let established = match .. { Some(r) => helper(..), None => false }`): true only where
+            # the goal check itself was true
+            neg = False
+            c2 = s
+            while c2[0] == "un" and c2[1] == "Not":
+                c2 = strip(c2[2]); neg = not neg
+            fe, te = A.bool_edges(fn, b)
+            out.append((b, fe, ("sw", 0)) if neg else (b, te, ("sw", "otherwise")))
     return out
+
+
+def _implies_check(sym, goal_txt, depth=0):
+    """sym == true implies check_goal_in_facts(goal) returned true."""
+    s = strip(sym)
+    if depth > 6:
+        return False
+    if s[0] == "const":
+        return s[2] is False
+    if s[0] == "call" and s[1].endswith("::check_goal_in_facts"):
+        return goal_txt is None or fmt_sym(strip(s[2][1]), maxdepth=8) == goal_txt
+    if s[0] == "phi":
+        return all(_implies_check(a, goal_txt, depth + 1) for a in s[1])
+    if s[0] == "bin" and s[1] == "BitAnd":
+        return _implies_check(s[2], goal_txt, depth + 1) or _implies_check(s[3], goal_txt, depth + 1)
+    return False
 
 
 def _witness(P, R, fn):
